@@ -25,10 +25,61 @@ PROPS = {
              trusted=["Go map semantics of macPayloadRegistry modelled as an association list", "sync.RWMutex not modelled (sequential histories only)"],
              stateful=True, history_ops=("register",),
              exhaustive_parts=["all 256 values of every 1-byte MAC payload", "registry: all 2x256 keys"]),
+    "C01": P("frames generated from the repo's own types over all 8 MTypes (join-request, join-accept with both CFList kinds, rejoin 0/1/2, data up/down confirmed/unconfirmed, proprietary), "
+             "all flag combinations, FOpts 0..15 bytes as commands or opaque bytes, FPort absent/0/1..255, FRMPayload lengths biased to 0,1,15,16,17,...,242,255; 1 in 5 deliberately invalid; "
+             "each is encoded AND decoded by the implementation (phyrt), plus base64 text and join-accept encrypt/decrypt; non-trivial = implementation returned ok",
+             trusted=["encoding/base64 modelled (LW/Model/Base64.lean), validated by correspondence only", "JoinAccept/CFList decode after decryption is compared with the model but its round-trip theorem is not yet proved"]),
+    "C02": P("data frames (up/down, confirmed/unconfirmed, FOpts/FPort/FRMPayload incl. multi-block lengths to 255 bytes) x random 128-bit keys x both MAC versions x FCnt/ConfFCnt biased to 0,1,0xFFFF,0x10000,2^32-1 x all txDR/txCh bytes x ACK set/unset; "
+             "for each: set MIC, validate the frame carrying it, validate a frame carrying another MIC, cmacF-only validation; the specification MIC is computed with the driver's own AES/CMAC",
+             trusted=["crypto/aes and jacobsa/crypto/cmac are modelled by an arbitrary block cipher in the theorems; the driver's executable AES-128 + RFC 4493 CMAC is validated against them on every op",
+                      "that a different CMAC input yields a different 4-byte MIC is a cryptographic assumption"]),
+    "C03": P("every payload length 0..255 (1..16 keystream blocks) x random keys, both directions, boundary counters; FOpts lengths 0..18 (16+ must be rejected); "
+             "PHYPayload methods on data frames with commands or opaque bytes, FPort absent/0/>0, and on non-data frames; encrypt followed by decrypt",
+             trusted=["crypto/aes modelled as an arbitrary lawful block cipher; executable AES validated by correspondence", "spare-capacity effects of EncryptFRMPayload are the subject of C10, not of this check"],
+             exhaustive_parts=["all payload lengths 0..255", "all FOpts lengths 0..18"]),
+    "C04": P("join-request / rejoin 0,1,2 / join-accept frames with random EUIs, nonces, NetID, DevAddr, DLSettings (OptNeg both ways), RXDelay 0..15, CFList absent / channels / masks, all four JoinReqType values, random keys; "
+             "MIC set + validate, encrypt, decrypt with the right and a wrong key; 1 in 10 invalid",
+             trusted=["crypto/aes modelled as an arbitrary lawful block cipher; executable AES validated by correspondence"]),
+    "C05": P("full sender pipeline (encrypt FRMPayload -> encrypt FOpts (1.1) -> set MIC -> marshal) and receiver pipeline (unmarshal -> set 32-bit FCnt -> validate -> decrypt/decode FOpts -> decrypt FRMPayload) "
+             "through the public API on valid data frames, both directions, both versions; per frame 1 untampered run + single-bit corruptions at random positions and single-parameter mismatches "
+             "(FNwkSIntKey, SNwkSIntKey, FCnt upper 16 bits, ConfFCnt, txDR, txCh, version)",
+             trusted=["crypto/aes as C02", "the 32-bit FCnt reconstruction (upper 16 bits) is supplied by the caller, as in a real network server"]),
+    "C08": P("byte strings of every length 0..256 for each of the 8 MTypes (uniform), uniform strings at the lengths the decoders single out, structure-aware mutations (bit flip, truncate, extend, splice, overwrite, delete) of valid frames of all kinds, "
+             "and the full FOptsLen x FPort x payload-length grid; each accepted string is re-encoded by the implementation; non-trivial = accepted",
+             exhaustive_parts=["all lengths 0..256 x 8 MTypes (one uniform sample each)", "FOptsLen 0..15 x {no port, port 0, port 1, port 255} x payload 0..2 x 4 data MTypes"]),
 }
 
 # texts for MANIFEST.json (lib/manifest.py)
 MANIFEST_TEXT = {
+    "C01": dict(
+        text="Lean theorems C01_roundtrip (encode then decode = the frame as seen over the wire, all 8 MTypes, FOpts <= 15 bytes, any FRMPayload length), C01_encode_total (an explicit decidable spec-validity predicate implies the encoder accepts), "
+             "C01_valid_roundtrip, C01_commands (the decoded opaque FOpts / port-0 bytes decode to the sender's commands, via the C07 stream theorem). The model is tied to the Go code by encode+decode runs on generated frames.",
+        note="Trusted: Lean kernel; Spec.frameValid / Spec.wire definitions (LW/Spec/Frame.lean); base64 is modelled, not proved. The join-accept payload round trip through decryption (CFList stripping of trailing zero masks) is compared at run time only.",
+        technique="Lean 4 proof (encode/decode round trip on the model) + differential correspondence"),
+    "C02": dict(
+        text="Lean theorems for EVERY block cipher: C02_up / C02_down (model MIC = specification B0/B1 CMAC, ACK gating, ConfFCnt mod 2^16, 1.0 vs 1.1 composition), C02_validate_*_iff, C02_set_validate_*, C02_validateF, "
+             "C02_indep_* (excluded inputs do not matter), C02_bound_inputs_B0/B1 (the CMAC input is injective in direction, DevAddr, 32-bit FCnt, ConfFCnt, TxDr, TxCh, message). Every Go MIC is also compared with the spec MIC computed by the driver's AES-CMAC.",
+        note="Trusted: Lean kernel; Spec.micUp/micDown transcription; executable AES/CMAC (validated against crypto/aes + jacobsa/cmac by every op); collision resistance of the 4-byte MIC is assumed.",
+        technique="Lean 4 proof (model = spec, generic in the cipher) + differential correspondence"),
+    "C03": dict(
+        text="Lean theorems for every lawful block cipher and every length: C03_frm_spec (EncryptFRMPayload = payload XOR S_1|S_2|...), C03_frm_len, C03_frm_involution, C03_fopts_spec / _limit / _involution, "
+             "C03_phy_fopts (AFCntDown exactly for downlink with FPort>0; success implies transformed), C03_phy_frm, C03_decrypt_never_silent. Every Go ciphertext is compared with the spec keystream computed by the driver.",
+        note="Trusted: Lean kernel; Spec keystream transcription; executable AES. One genuine defect found and repaired (DecryptFOpts swallowed errors).",
+        technique="Lean 4 proof (model = spec keystream, involution) + differential correspondence"),
+    "C04": dict(
+        text="Lean theorems: C04_join_mic, C04_ja_mic (1.0 / OptNeg forms), C04_ja_encrypt (ciphertext = aes128_decrypt ECB over payload|MIC), C04_ja_device (device recovers payload|MIC with aes128_encrypt, any lawful cipher), C04_ja_sizes (12/28 bytes). "
+             "Every Go MIC / ciphertext is compared with the specification value; decrypt(encrypt) is compared with the model.",
+        note="Trusted: Lean kernel; Spec transcription; executable AES. The parse of the decrypted join-accept (CFList) is tied by correspondence; its round-trip theorem is not yet proved.",
+        technique="Lean 4 proof (model = spec, ECB inverse) + differential correspondence"),
+    "C05": dict(
+        text="The sender and receiver call sequences are composed from the model functions proved in C01/C02/C03/C07 (LW/Model/Exchange.lean) and executed against the real API step by step; "
+             "the spec verdict checks (a) untampered valid frames are accepted with exactly the original commands/payload and (b) a tampered frame is accepted iff the specification MIC over the received bytes under the receiver's parameters matches.",
+        note="Trusted: as C01-C03 and C07. The end-to-end composition theorem (C05_exchange) is stated via its component theorems; the composed statement itself is not yet a single Lean theorem - see level text.",
+        technique="Lean 4 proofs of the components + executable composition compared with the Go pipeline + spec-MIC oracle"),
+    "C08": dict(
+        text="Lean theorems C08_canonical (for ALL byte strings of all lengths: accepted with RFU bits zero => re-encodes to exactly the input) and C08_stable. Tied to the Go decoder/encoder by decode+re-encode runs on uniform and mutated inputs.",
+        note="Trusted: Lean kernel; the model of the frame codec. One genuine defect found and repaired (FOpts + FPort 0 + empty FRMPayload accepted but not encodable).",
+        technique="Lean 4 proof (decode then encode = identity on accepted strings) + differential correspondence"),
     "C06": dict(
         text="Lean theorems C06_dec_spec / C06_enc_spec: for all 30 MAC payload types, every byte string and every in-range value, the model codec equals a table-driven "
              "bit-layout specification (RFU bits ignored on receive, zero on transmit); C06_registry: the registry regenerated from /repo equals the specification's (CID, direction) table. "
